@@ -48,7 +48,7 @@ class SimSession:
 
 
 class SimSlave:
-    def __init__(self, name, ports, device=None, flags=('listen',), latencies=(0.01,), host='sim'):
+    def __init__(self, name, ports, device=None, flags=('listen',), latencies=(0.01,), host='sim', session_floor=10):
         self.name = name
         self.host = host
         self.device = dict(device or {})
@@ -63,6 +63,8 @@ class SimSlave:
         self.reverse = {'enabled': False, 'scheme': 'http', 'host': 'master', 'port': 80, 'path': '/', 'device_id': name,
                         'timeout': 10}
         self.sessions = {}
+        # a session is kept for SESSION_EXPIRY_FACTOR * max(timeout, session_floor) seconds (0 = exactly core/sessions.py)
+        self.session_floor = session_floor
         self.net_up = True
         self.latencies = list(latencies) or [0.01]
         self._lat_i = 0
@@ -84,6 +86,7 @@ class SimSlave:
 
     def set_net(self, up):
         self.net_up = bool(up)
+        self.polls_since_change = 0
         if not up:
             for s in self.sessions.values():
                 if s.future is not None and not s.future.done():
@@ -92,7 +95,10 @@ class SimSlave:
 
     # ------------------------------------------------------------------ device side mutations (the "script" acts here)
     def port_json(self, pid):
-        return copy.deepcopy(self.ports[pid])
+        j = copy.deepcopy(self.ports[pid])
+        if not j.get('enabled'):
+            j['value'] = None            # a disabled port has no value (BasePort.to_json)
+        return j
 
     def emit(self, typ, params):
         ev = {'type': typ, 'params': copy.deepcopy(params)}
@@ -125,7 +131,7 @@ class SimSlave:
                 self._respond(s)
             elif active and now - s.accessed >= s.timeout:
                 self._respond(s)
-            elif not active and now - s.accessed > s.timeout * SESSION_EXPIRY_FACTOR:
+            elif not active and now - s.accessed > max(s.timeout, self.session_floor) * SESSION_EXPIRY_FACTOR:
                 self.sessions.pop(sid)
 
     def _respond(self, s):
@@ -139,7 +145,7 @@ class SimSlave:
         if p is None:
             return False
         old = p.get('value')
-        if old == value:
+        if old == value or not p.get('enabled'):
             return False
         p['value'] = value
         self.emit('value-change', {'id': pid, 'value': value, 'old_value': old})
@@ -183,6 +189,8 @@ class SimSlave:
     async def handle(self, method, path, query, headers, body):
         """-> (status, json-able body or None)"""
         self.requests.append([_ms(), method, path, copy.deepcopy(body)])
+        if method != 'GET':
+            self.polls_since_change = 0
         path = path.rstrip('/') or '/'
         if path == '/device':
             if method == 'GET':
@@ -301,6 +309,7 @@ class FakeAsyncHTTPClient:
     """stands in for tornado.httpclient.AsyncHTTPClient inside qtoggleserver.slaves.devices"""
     sims = {}        # host -> SimSlave
     refused_by_client = []   # [ms, method, path, message]  requests the HTTP client itself refused to issue
+    attempts = []            # [ms, method, path, body, refused]    every request the master built, in the order it was built
 
     def __init__(self, *args, **kwargs):
         pass
@@ -316,11 +325,18 @@ class FakeAsyncHTTPClient:
     async def _fetch(self, request, raise_error):
         u = urlsplit(request.url)
         try:
+            jbody = json.loads(request.body.decode()) if request.body is not None else None
+        except Exception:
+            jbody = {'__undecodable__': True}
+        try:
             check_body_like_tornado(request)
         except ValueError as e:
             self.refused_by_client.append([_ms(), request.method, u.path, str(e)])
+            self.attempts.append([_ms(), request.method, u.path, jbody, True])
             await asyncio.sleep(0)
             raise
+        if not u.path.rstrip('/').endswith('/listen'):
+            self.attempts.append([_ms(), request.method, u.path, jbody, False])
         sim = self.sims.get(u.hostname)
         if sim is None:
             await asyncio.sleep(0.001)
@@ -388,5 +404,6 @@ def install(devices_module, sim, base_path=''):
     sim.base_path = base_path.rstrip('/')
     FakeAsyncHTTPClient.sims = {sim.host: sim}
     FakeAsyncHTTPClient.refused_by_client = []
+    FakeAsyncHTTPClient.attempts = []
     devices_module.AsyncHTTPClient = FakeAsyncHTTPClient
     return FakeAsyncHTTPClient
